@@ -277,12 +277,24 @@ fn rejection(ctx: &mut Ctx, n: usize) {
             format!("{}\n{}\n", it.text, print_member(&Member { docs: vec![], ..m.clone() }))
         }));
         bad.push(("no-interface".into(), it.text.replacen("interface ", "interfac ", 1)));
+        // a comment needs its line end: a text cut off inside a trailing comment is not a definition
+        bad.push(("cut-off-inside-trailing-comment".into(), format!("{}# cut off here", it.text)));
+        bad.push(("cut-off-inside-trailing-comment-crlf".into(), format!("{}# cut off here", it.text.replace('\n', "\r\n"))));
         for (why, text) in bad {
             if matches!(recognise(&text), Verdict::Accept(ref a) if a.duplicated_names().is_empty()) {
                 continue; // the mutation happened to stay valid
             }
             if matches!(recognise(&text), Verdict::Unspecified(_)) {
-                continue;
+                // where the documented grammar is silent the statement's own yardstick decides:
+                // "every input the parser rejects"
+                let parser_rejects = std::panic::catch_unwind(|| {
+                    use std::convert::TryFrom;
+                    varlink_parser::IDL::try_from(text.as_str()).is_err()
+                })
+                .unwrap_or(false);
+                if !parser_rejects {
+                    continue;
+                }
             }
             count += 1;
             ctx.case(Some(hash64(&text)));
